@@ -36,3 +36,7 @@ import Gleece.Properties.C10Common
 #print axioms Gleece.Validate.commonValidate_complete
 #print axioms Gleece.Validate.annotsWellFormedB_sound
 #print axioms Gleece.Validate.well_formed_route_accepted
+#print axioms Gleece.Validate.exclusion_symmetric_lookup
+#print axioms Gleece.Validate.commonValidate_go_sound
+#print axioms Gleece.Validate.commonValidate_sound
+#print axioms Gleece.Validate.commonValidate_accepts_iff
